@@ -37,7 +37,8 @@ RULE = ("Hypothesis-generated tables: n in 2..9 pairwise distinct abscissae from
         "planet_stars_in_line with 3-7 entries), minsep (minimum_angular_separation). Non-trivial: "
         "limits other than the default, or more than one sign change in the table, or unordered "
         "input, or n >= 5 (value/root/minmax); always for refuse, conj, minsep. Distinct = distinct "
-        "case dict.")
+        "case dict."
+        " In the copy form the source object is, for odd table lengths, re-loaded with another table after the copy was taken (and the copy re-loaded from its source for lengths divisible by four).")
 ASSUMPTIONS = [
     "'relative 1e-9' for value and derivative is taken relative to max|y_i| * sum_i |l_i(x)| "
     "(resp. max|y_i| * sum_i |l_i'(x)|): the largest tabulated ordinate times the Lebesgue "
